@@ -96,6 +96,7 @@ type Exec struct {
 	curFn       []*ssa.Function
 	fnSteps     map[*ssa.Function]int64
 	stubsHit    map[string]int
+	assertSeen  map[string]int     // assertion labels evaluated on this path
 	pool        map[*Value][]Value // sync.Pool contents keyed by pool cell
 	hashes      map[*Value]*hashState
 	once        map[*Value]bool
